@@ -71,7 +71,7 @@ def run_check(pid):
 
 def main():
     only = sys.argv[1:]
-    patches = sorted(glob.glob('/tmp/C??_m?.patch')) + sorted(glob.glob('/tmp/R??_n?.patch')) + sorted(glob.glob('/tmp/S??_n?.patch')) + sorted(glob.glob('/tmp/T??_n?.patch'))
+    patches = sorted(glob.glob('/tmp/C??_m?.patch')) + sorted(glob.glob('/tmp/R??_n?.patch')) + sorted(glob.glob('/tmp/S??_n?.patch')) + sorted(glob.glob('/tmp/T??_n?.patch')) + sorted(glob.glob('/tmp/U??_n?.patch'))
     # changes already kept under seeded/<name>/ can be re-run without the sub-agents' files in /tmp
     have = set(os.path.basename(p)[:-6] for p in patches)
     for d in sorted(glob.glob('/verif/seeded/*/patch.diff')):
@@ -91,7 +91,7 @@ def main():
     for p in patches:
         name = os.path.basename(p)[:-6]
         pid = name[:3]
-        if pid[0] in 'RST':
+        if pid[0] in 'RSTU':
             # area-based round: the property is named in the json record
             try:
                 pid = json.load(open(os.path.join(os.path.dirname(p), name + '.json')))['property'].strip()[:3]
